@@ -121,6 +121,8 @@ def check(program: Program, run: Run) -> None:
     # ---- R1 / R2
     seen_r1: dict = {}
     seen_r2: dict = {}
+    bad_kind: dict = {}
+    bad_slot: dict = {}
     nslots = 0
     for c in terms:
         f = c.resolve("get_sql")
@@ -137,7 +139,7 @@ def check(program: Program, run: Run) -> None:
         run.ob("C12/R1 alias discipline", c.qualname, ok, detail=f"{kind} on(min,max)={counts[:2]} off(min,max)={counts[2:]}", where=f.loc())
         if not ok:
             k = kind if kind != "gated" else "not-last"
-            seen_r1.setdefault((f.cls.qualname, k), []).append(c.qualname)
+            bad_kind[c] = k
         # R2
         sk, _ = render(program, c)
         for part, conds, in_rep in walk_parts(sk):
@@ -159,8 +161,19 @@ def check(program: Program, run: Run) -> None:
                 ra2 = ra + ("[]" if "[]" in rp else "")
                 if rp.startswith("all("):
                     ra2 = rp[4:].rstrip(")") + "[]"    # Criterion.all(self._filters): the same operands as a loop over _filters
-                srccls = _attr_owner(c, ra2.replace("[]", ""))
-                seen_r2.setdefault((srccls, ra2), (part, c))
+                bad_slot[(c, ra2)] = (part.src[0] if part.src else f.qualname, part)
+    # a finding is keyed by the most basic term class that uses the same get_sql definition and shows the same discipline
+    # (stable when get_sql moves into a mixin or becomes a base-class template method with hooks)
+    for c, k in bad_kind.items():
+        gf = c.resolve("get_sql")
+        root = next((a for a in reversed(c.mro) if bad_kind.get(a) == k and a.resolve("get_sql") is gf), c)
+        seen_r1.setdefault((root.qualname, k), []).append(c.qualname)
+    # an operand finding is keyed by the most basic class that renders the same operand badly *through the same source
+    # function*: subclasses inheriting the renderer share the key, siblings that merely share a pulled-up helper and
+    # subclasses that override the renderer keep their own
+    for (c, ra2), (srcfn, part) in bad_slot.items():
+        root = next((a for a in reversed(c.mro) if (a, ra2) in bad_slot and bad_slot[(a, ra2)][0] == srcfn), c)
+        seen_r2.setdefault((root.qualname, ra2), (part, c))
     for (dc, k), classes in sorted(seen_r1.items()):
         what = {"never": "never emits its alias: an aliased instance in a defining position silently loses the name",
                 "unconditional": "emits its alias even when with_alias is off: the alias is printed inside expressions",
@@ -168,7 +181,7 @@ def check(program: Program, run: Run) -> None:
                 "duplicated": "can emit its alias more than once",
                 "not-last": "emits text after its alias"}[k]
         run.finding(f"C12/alias-discipline:{dc}:{k}", f"{dc}.get_sql {what} (affects {', '.join(sorted(set(classes))[:6])}{'...' if len(set(classes)) > 6 else ''})",
-                    where=program.cls(dc).methods["get_sql"].loc() if "get_sql" in program.cls(dc).methods else "", rule="R1")
+                    where=(program.cls(dc).resolve("get_sql").loc() if program.cls(dc).resolve("get_sql") is not None else ""), rule="R1")
     for (dc, rp), (part, c) in sorted(seen_r2.items()):
         run.finding(f"C12/operand-alias:{dc}.{rp}",
                     f"{dc} renders its operand `{rp}` with the incoming with_alias flag ({show(part.ctx.fields['with_alias'])}): an aliased operand prints its alias mid-expression",
